@@ -74,6 +74,9 @@ def run(prog, rep):
     from .c01 import equivalence_discharge
     rep.attempt(PR.tdftype_primitives, prog, rep)
     equivalence_discharge(prog, cd, rep)
+    # a decoded block re-derives its runs (and so its size) from NaN: gap frames must decode as NaN
+    from .c05 import nan_prefill
+    rep.attempt(nan_prefill, prog, cd, rep)
 
     for a in cd.assumptions:
         rep.assume(a)
